@@ -47,7 +47,7 @@ def required_cells(tier):
             "class:E", "class:R", "resolved-set-compared", "table-compared", "header-dir-outside-root",
             "outside-header-read", "include-depth>=40", "include-depth>=70", "headers-differing-in-case",
             "guard-undefined-then-reincluded", "directory-named-like-header-on-search-path", "include-spelled-with-dotdot",
-            "dotdot-include-resolved-through-search-directory", "include-spelled-with-dotdot-after-directory-link", "directory-named-by-I-and-isystem", "quote-include-inside-header-opened-through-file-link", "directory-named-twice-by-I", "environment:CPATH-names-header-directories",
+            "dotdot-include-resolved-through-search-directory", "include-spelled-with-dotdot-after-directory-link", "directory-named-by-I-and-isystem", "forced-include-without-recognised-extension", "quote-include-inside-header-opened-through-file-link", "directory-named-twice-by-I", "environment:CPATH-names-header-directories",
             "headers-with-unknown-or-no-extension", "header-names-outside-ascii"]
 
 
@@ -101,6 +101,8 @@ def cells_of(case, per_tu, events, base):
             cells.add("isystem-before-I")
         if tu["includes"]:
             cells.add("forced-include")
+        if any(sp.endswith(".def") for sp in tu["includes"]):
+            cells.add("forced-include-without-recognised-extension")
         sys_dirs = {d for k, d in tu["search"] if k == "isystem"}
         if any(k == "I" and d in sys_dirs for k, d in tu["search"]):
             cells.add("directory-named-by-I-and-isystem")
@@ -194,9 +196,9 @@ def check_case(ctx, case, base, cls, extra_cells=()):
             tu, g = case["tus"][ti], per_tu[ti]
             gset = {os.path.realpath(os.path.join(os.path.dirname(forest.abspath(*forest.paths(base), tu["file"])), p))
                     for _, p in g["includes"]}
-            if tu["includes"]:
-                # gcc -H does not list files given with -include; the generator only forces inc/pre.h
-                gset.add(os.path.realpath(forest.abspath(*forest.paths(base), "inc/pre.h")))
+            for sp in tu["includes"]:
+                # gcc -H does not list files given with -include; the generator only forces inc/pre.h and inc/forced.def
+                gset.add(os.path.realpath(forest.abspath(*forest.paths(base), "inc/forced.def" if sp.endswith("forced.def") else "inc/pre.h")))
             if any(p.startswith(os.path.realpath(forest.paths(base)[1]) + os.sep) for p in gset):
                 cells.add("outside-header-read")     # its D_ macro is compared in the final macro table below
             if i < len(plat_objs):
